@@ -331,10 +331,11 @@ type RaceCase struct {
 	Passes   int     `json:"passes"`
 	Seed     uint64  `json:"seed"`
 	Snapshot bool    `json:"snapshot"`
+	San      bool    `json:"san,omitempty"` // sanitizer configured, names in a spelling it rewrites (see Case.San)
 }
 
 func genRace(t *rapid.T) RaceCase {
-	c := RaceCase{Cached: rapid.Bool().Draw(t, "cached"), Passes: rapid.IntRange(1, 4).Draw(t, "passes"), Seed: rapid.Uint64().Draw(t, "seed"), Snapshot: rapid.Bool().Draw(t, "snapshot")}
+	c := RaceCase{Cached: rapid.Bool().Draw(t, "cached"), Passes: rapid.IntRange(1, 4).Draw(t, "passes"), Seed: rapid.Uint64().Draw(t, "seed"), Snapshot: rapid.Bool().Draw(t, "snapshot"), San: rapid.IntRange(0, 2).Draw(t, "san") == 0}
 	n := rapid.IntRange(8, 16).Draw(t, "ngoroutines")
 	common := genReqs(t, 4)
 	for i := 0; i < n; i++ {
@@ -354,9 +355,14 @@ func runRace(c RaceCase) (pbt.Outcome, error) {
 	} else {
 		opts.Reporter = &rec.Stats{L: log}
 	}
+	if c.San {
+		alnum := []tally.SanitizeRange{{'a', 'z'}, {'A', 'Z'}, {'0', '9'}}
+		vc := tally.ValidCharacters{Ranges: alnum, Characters: []rune{'_', '.'}}
+		opts.SanitizeOptions = &tally.SanitizeOptions{NameCharacters: vc, KeyCharacters: vc, ValueCharacters: vc, ReplacementCharacter: '_'}
+	}
 	root, _ := tally.VerifNewRootScope(opts, 0, 0)
 	scopes := []tally.Scope{root, root.SubScope("sub")}
-	w := &world{ptrs: map[string]map[interface{}]bool{}, counters: map[string]int64{}, timers: map[string]int{}, hists: map[string]int64{}}
+	w := &world{san: c.San, ptrs: map[string]map[interface{}]bool{}, counters: map[string]int64{}, timers: map[string]int{}, hists: map[string]int64{}}
 	f := sched.NewFree(c.Seed)
 	tally.VerifSetHooks(&tally.VerifHooks{Yield: f.Yield, Lock: f.Lock})
 	defer tally.VerifSetHooks(nil)
